@@ -259,6 +259,8 @@ func parseCallWithString(expr ast.Expr, methodName string, pkg *packages.Package
 			arg = call.Args[0]
 		} else if len(call.Args) == 2 { // "ct.<methodName>(c, <string>)" or <functionName>(c, <string>)
 			arg = call.Args[1]
+		} else {
+			panic(fmt.Sprintf("invalid argument length for %s", methodName))
 		}
 
 		argS, err := resolveConstString(arg, pkg)
